@@ -241,7 +241,10 @@ def search(tier="quick", seed=0, stop_at=1):
     fails, n = [], 0
     for spec in specs(tier, seed):
         n += 1
-        r = run_case(spec)
+        try:
+            r = run_case(spec)
+        except Exception as e:        # an unexpected exception while exercising the slotted class is itself a difference from the dataclass
+            r = f"exercising the slotted class raised {type(e).__name__}: {e}"[:300]
         if r:
             fails.append({"spec": spec, "violation": r})
             if len(fails) >= stop_at:
@@ -250,4 +253,7 @@ def search(tier="quick", seed=0, stop_at=1):
 
 
 def run_recorded(rec):
-    return run_case(rec["spec"])
+    try:
+        return run_case(rec["spec"])
+    except Exception as e:
+        return f"exercising the slotted class raised {type(e).__name__}: {e}"[:300]
